@@ -224,3 +224,18 @@ PROPS["C19"] = {
                   T("TestC19Command", {"checks": 8, "shards": 6}, {"checks": 80, "shards": 12})],
     }],
 }
+
+PROPS["C12"] = {
+    "level": "fault_enumeration",
+    "exhaustive_when_all": False,
+    "assumptions": ["cancel points: synchronous cancellation of the parent context inside the k-th probe start / record write / error log (application engine), and the real SIGINT sent from inside the k-th frame write for every k of a run (packet commands)",
+                    "'bounded time' = 30 s (expected: milliseconds); a miss is reported with a goroutine dump",
+                    "leaked goroutines that do not block the call are not judged; schedules are sampled (race detector on)"],
+    "max_parallel": 12,
+    "units": [{
+        "pkg": "command", "race": True,
+        "tests": [T("TestC12App", {"checks": 60, "shards": 8, "gomaxprocs": [1, 2, 4, 16]}, {"checks": 600, "shards": 16, "gomaxprocs": [1, 2, 4, 16]}),
+                  T("TestC12Packet", {"checks": 3, "shards": 8}, {"checks": 30, "shards": 16}),
+                  T("TestC12Socks", {"checks": 4, "shards": 4}, {"checks": 30, "shards": 8})],
+    }],
+}
